@@ -47,6 +47,7 @@ type Report struct {
 	Failures   []Replay    `json:"failures"`
 	Exhausted  bool        `json:"exhausted"` // the worker's share of an enumeration was completed
 	Tainted    bool        `json:"tainted"`
+	NextIdx    int         `json:"next_idx"` // index of the first run this worker did not execute
 	WallS      float64     `json:"wall_s"`
 	MemoMisses int         `json:"reference_evaluations"`
 	Hashes     []string    `json:"hashes,omitempty"`
@@ -165,6 +166,7 @@ func main() {
 	rep := &Report{Property: *prop, Worker: *worker, Race: core.RaceEnabled, Stats: st, Rule: p.Rule()}
 	ph := core.MixString(0, *prop)
 	for idx := *first; ; idx++ {
+		rep.NextIdx = idx
 		if *runs > 0 && idx-*first >= *runs {
 			break
 		}
@@ -191,7 +193,12 @@ func main() {
 			// an unusually long run: not judged (counted), and the process cannot run another simulation
 			st.Inconclusive++
 			st.Probe("run_abandoned_step_budget")
+			if os.Getenv("VERIF_DEBUG") != "" {
+				b, _ := json.Marshal(plan)
+				fmt.Fprintf(os.Stderr, "DEBUG budget: %s: %s\n%s\n", where, rr.Out.Msg, b)
+			}
 			rep.Tainted = true
+			rep.NextIdx = idx + 1
 			break
 		}
 		st.AddOutcome(rr.Out)
@@ -221,6 +228,7 @@ func main() {
 		}
 		if rr.Out.Tainted {
 			rep.Tainted = true
+			rep.NextIdx = idx + 1
 			break
 		}
 		if len(rep.Failures) >= *maxFail {
